@@ -730,7 +730,7 @@ theorem c03_vote_refines_c01_claim {η : Type} [DecidableEq η] (key : FxVerif.M
         (c.nonce ∉ s3.pending.map (·.1) → c.nonce ∉ s1.pending →
           (c.nonce ∈ (FxVerif.Model.C03.vote key le s3 o c hp).1.pending.map (·.1) ↔ c.nonce ∈ (claimStep s1 w i c.nonce h kind).1.pending)))
     from ⟨hmain.1, hobs, hmain.2.1, hmain.2.2⟩
-  unfold FxVerif.Model.C03.vote FxVerif.Model.C03.voteWith
+  rw [vote_unfold]
   unfold claimStep
   simp only [hvb, hreg, horc, hon, hro, hco, Bool.not_true, Bool.false_eq_true, if_false, Bool.true_and, Bool.and_false, hlc, hln]
   by_cases hL : logicCheck s1 kind = true
